@@ -37,7 +37,8 @@ def sched_sig(s):
     parts = []
     for g, a in s.get("acts", []):
         if a["k"] == "obs":
-            parts.append("o:" + a["step"]["op"] + ":" + str(a["step"].get("f", a["step"].get("ix", [""])[0])))
+            parts.append("o:" + a["step"]["op"] + ":" + str(a["step"].get("f", a["step"].get("ix", [""])[0]))
+                         + ("!" if a.get("fail_alloc") is not None else ""))
         else:
             parts.append(a["k"])
     return ",".join(parts)
@@ -78,8 +79,10 @@ def one_run(prop, seed, i, k, acc, r01_open=False):
             pairs.append((side(schedule.LAZY), ref, side(s), None))
     elif prop == "C10":
         ref = run(prog, schedule.LAZY)
-        for _ in range(k):
-            pairs.append((side(schedule.LAZY), ref, side(schedule.observer_schedule(srng, lay)), None))
+        for j in range(k):
+            # every other schedule also arms allocation failures inside a third of its observers
+            fr = 0.35 if j % 2 == 1 else 0.0
+            pairs.append((side(schedule.LAZY), ref, side(schedule.observer_schedule(srng, lay, fault_rate=fr)), None))
     else:
         scheds = [schedule.LAZY] + [mixed_schedule(srng, lay) for _ in range(k)]
         for s in scheds:
